@@ -2,6 +2,7 @@ import ThriftVerif.Gen.Std
 import ThriftVerif.Gen.StdLemmas
 import ThriftVerif.Gen.SchemaCheck
 import ThriftVerif.Core.WireLemmas
+import ThriftVerif.Generated.C02
 /-
   C02 — generated Read/Write implement the Thrift wire format of the IDL.
   Property theorems over `Gen.Std` (the model of the default go templates) and `Core.Wire`.
@@ -11,6 +12,19 @@ import ThriftVerif.Core.WireLemmas
 -/
 namespace Props.C02
 open Wire Gen Gen.Std
+
+/-- regenerated obligation: for every IDL category, the TType constant the templates emit in
+`WriteFieldBegin` / compare in `Read` (extracted from /repo on every run) is the wire type the model
+(and the Thrift specification) assigns to that category: enum → i32, binary → string, struct-likes → struct. -/
+theorem typeid_table_sound :
+    Generated.C02.typeIdTable =
+      [("bool", Ty.bool.ttype.code), ("byte", Ty.i8.ttype.code), ("i16", Ty.i16.ttype.code),
+       ("i32", Ty.i32.ttype.code), ("i64", Ty.i64.ttype.code), ("double", Ty.dbl.ttype.code),
+       ("string", Ty.str.ttype.code), ("binary", Ty.bin.ttype.code), ("enum", Ty.enum.ttype.code),
+       ("list", (Ty.list .bool).ttype.code), ("set", (Ty.set .bool).ttype.code),
+       ("map", (Ty.map .bool .bool).ttype.code), ("struct", (Ty.struct 0).ttype.code),
+       ("union", (Ty.struct 0).ttype.code), ("exception", (Ty.struct 0).ttype.code)] := by
+  decide
 
 /-- the binary protocol round trip, untyped: every well-formed wire value decodes from its encoding
 (any trailing bytes untouched), at any fuel ≥ its depth. -/
